@@ -4,6 +4,7 @@ From Coq Require Import List NArith ZArith Bool String.
 Import ListNotations.
 From JR Require Import Json Handle Handle_Proofs.
 From JRGen Require Extracted.
+From JR Require Skeletons.
 
 (* resolution is: the direct entry; else the direct entry of the alias target (one hop); else not found *)
 Theorem c12_direct : forall c name h, assoc_b name (methods c) = Some h -> resolve c name = Some h.
@@ -69,6 +70,13 @@ Theorem c12_source_facts :
   Extracted.method_name_assignments = ["name = c.methodNameFormatter(c.namespace, f.Name)"; "name = tag"]%string.
 Proof. reflexivity. Qed.
 
+(* the functions this property's model is an abstraction of still have the control / locking / shared-state skeleton the
+   model was written against (Skeletons.v, by hand; Extracted.v, regenerated from /repo) *)
+Theorem c12_code_skeletons :
+  JRGen.Extracted.effects_handle = JR.Skeletons.handle.
+Proof. repeat split; reflexivity. Qed.
+
+Print Assumptions c12_code_skeletons.
 Print Assumptions c12_source_facts.
 Print Assumptions c12_direct.
 Print Assumptions c12_alias.
